@@ -97,4 +97,10 @@ theorem config_invalid_mode_is_ignored :
 /-- non-vacuity of `config_read_only_from_file_partial` -/
 example : ConfigM.sizeOpt (ConfigM.envSize {}) = none ∧ ConfigM.boolFromEnv ({} : ConfigM.Env).direct = .ok none := ⟨rfl, rfl⟩
 
+/-- the configuration model reads the accepted words, the defaults and the suffix table from config.rs / cache.rs **as they are
+    now** (regenerated); in particular the cache is read-write by default and `READ_ONLY` is the only word that changes that -/
+theorem config_words_are_source_words :
+    ConfigM.sReadOnly = GenC.rwReadOnlyWord ∧ ConfigM.sReadWrite = GenC.rwReadWriteWord ∧ ConfigM.Disk.dflt.rw = .readWrite ∧
+    GenC.anyOverriddenTerms = 4 := ⟨rfl, rfl, rfl, rfl⟩
+
 end C15
